@@ -1,6 +1,20 @@
 from ._expr_common import run_expr_prop
+from .. import coro_check
 
 
 def run(tier, seed, verdict):
     cov, assume = run_expr_prop("C04", tier, seed, verdict, variants=("asan20d",))
+    # task<> registers stop callbacks (stop-request thunk, token adapter) on its receiver's token as well: the
+    # deregistration clause is monitored on the coroutine harness too (counting-token rule M4, source freed at completion)
+    n, budget = (16, 40) if tier == "quick" else (120, 100)
+    cr = coro_check.CoroRun(seed, n, budget, "asan20d")
+    cr.build()
+    cr.execute({"C04": verdict})
+    c2 = cr.coverage()
+    cov["coroutine_scenarios"] = c2["evaluations"]
+    cov["coroutine_stop_deliveries"] = c2["stop_requests_seen_by_awaited_leaves"]
+    cov["evaluations"] += c2["evaluations"]
+    cov["crashed_processes"] += c2["crashed_processes"]
+    cov["rule"] += (" Additionally %d task<> plan sets (harness/src/coro.cpp) x stop positions with counting / inplace tokens: "
+                    "registrations left on the receiver's token at completion (M4) and use of a freed source." % n)
     return cov, assume, "exploration"
